@@ -163,6 +163,7 @@ def run_case(case: Dict[str, Any]) -> Dict[str, Any]:
         client = rig.add_client(case.get('transport', 'unix'), rcvbuf=case.get('rcvbuf'), sndbuf=case.get('sndbuf'))
         hp = origin.hostport
         nreq = 1
+        pipelined = False
         early = b''
         if role == 'tunnel':
             if case.get('early_payload'):
@@ -173,6 +174,7 @@ def run_case(case: Dict[str, Any]) -> Dict[str, Any]:
             client.send(b'GET http://%s/r0 HTTP/1.1\r\nHost: %s\r\n\r\n' % (hp, hp))
             if fr == 'seq':
                 nreq = rng.randint(2, 3)
+                pipelined = bool(case.get('pipelined'))
         box: Dict[str, Any] = {}
 
         def accepted() -> bool:
@@ -219,6 +221,12 @@ def run_case(case: Dict[str, Any]) -> Dict[str, Any]:
                     pcs = G.cut_at(raw, G.random_cuts(rng, len(raw), case['ncuts']))
                 per_req_pieces.append(pcs)
             o_pieces = per_req_pieces[0]
+            if pipelined:
+                # all requests were sent up front; the origin answers them as one stream whose pieces are cut without regard to
+                # where one response ends and the next begins (a boundary inside a piece = two responses sharing one read)
+                joined = b''.join(streams)
+                o_pieces = G.cut_at(joined, G.random_cuts(rng, len(joined), case['ncuts']))
+                obs['pipelined_response_sequences'] = 1
             c_pieces = []
             expected_c = b''.join(streams)
             segs = sum(len(p) for p in per_req_pieces)
@@ -228,6 +236,9 @@ def run_case(case: Dict[str, Any]) -> Dict[str, Any]:
             rig.until(lambda: b'\r\n\r\n' in client.rx, [client, oc])
         else:
             rig.until(lambda: b'\r\n\r\n' in oc.rx, [client, oc])
+            if pipelined:
+                client.send(b''.join(b'GET http://%s/r%d HTTP/1.1\r\nHost: %s\r\n\r\n' % (hp, r, hp) for r in range(1, nreq)))
+                rig.until(lambda: oc.rx.count(b'\r\n\r\n') >= nreq, [client, oc], idle_timeout=0.5)
         if role == 'tunnel':
             ack = bytes(client.rx[:len(ACK_OK)])
             if not ack_ok(bytes(client.rx)) and len(client.rx) > 0:
@@ -293,7 +304,7 @@ def run_case(case: Dict[str, Any]) -> Dict[str, Any]:
                     states.add(monitors.sample_state(w))
                     maxdepth = max(maxdepth, monitors.client_buffer_depth(w))
             # sequence of keep-alive exchanges: next request once this response has been fully sent
-            if role == 'http' and not o_rem and oi >= len(o_pieces) and cur_req + 1 < nreq:
+            if role == 'http' and not pipelined and not o_rem and oi >= len(o_pieces) and cur_req + 1 < nreq:
                 # the client must have read the whole response before sending the next request
                 want = sum(len(s) for s in streams[:cur_req + 1])
                 if rig.until(lambda: len(client.rx) >= want, [client]):
@@ -305,7 +316,7 @@ def run_case(case: Dict[str, Any]) -> Dict[str, Any]:
                     oi = 0
                 else:
                     break
-            if not o_rem and oi >= len(o_pieces) and not c_rem and ci >= len(c_pieces) and (role == 'tunnel' or cur_req + 1 >= nreq):
+            if not o_rem and oi >= len(o_pieces) and not c_rem and ci >= len(c_pieces) and (role == 'tunnel' or pipelined or cur_req + 1 >= nreq):
                 break
         if fr == 'close' and role == 'http' and not o_rem and oi >= len(o_pieces):
             oc.close()
@@ -416,7 +427,8 @@ def cases(tier: str, seed: int):
                'transport': rng.choice(['unix', 'unix', 'tcp']), 'rcvbuf': rng.choice([None, None, 4096]),
                'sndbuf': rng.choice([None, None, 4096]),
                'mode': rng.choice(modes), 'ending': rng.choice(['none', 'origin-rst', 'origin-fin', 'client-rst', 'client-fin']),
-               'early_payload': rng.choice([0, 0, 1, 300, 5000]) if role == 'tunnel' else 0}
+               'early_payload': rng.choice([0, 0, 1, 300, 5000]) if role == 'tunnel' else 0,
+               'pipelined': fr == 'seq' and rng.random() < 0.5}
     for k in range(3 if tier == 'quick' else 40):
         i += 1
         yield {'seed': seed, 'i': i, 'role': 'echo', 'fr': 'raw', 'flags': 'default', 'size': rng.choice([12, 24]) << 20, 'mode': rng.choice(modes),
@@ -434,7 +446,7 @@ def cases(tier: str, seed: int):
 def floors(tier: str) -> Dict[str, int]:
     fl = {'nontrivial_cases': 100, 'distinct:schedules': 300, 'distinct:handler_states': 3,
           'shim:send:short-injected': 100, 'shim:send:eagain-injected': 50, 'shim:send:short-real': 20, 'mode:remote': 50, 'role:tunnel': 50,
-          'echo_runs': 2, 'early_tunnel_payloads': 100, 'ending:origin-rst': 40, 'ending:origin-fin': 40, 'ending:client-rst': 40, 'ending:client-fin': 40}
+          'echo_runs': 2, 'early_tunnel_payloads': 100, 'pipelined_response_sequences': 40, 'ending:origin-rst': 40, 'ending:origin-fin': 40, 'ending:client-rst': 40, 'ending:client-fin': 40}
     for f in FRAMINGS:
         fl['fr:' + f] = 10
     return fl
